@@ -97,7 +97,7 @@ def extract():
         c[n] = _str_const(s, n, rel)
     for n in ("segmentSeparator", "escapeChar", "leftBracket", "rightBracket", "leftSquareBracket", "rightSquareBracket"):
         c[n] = _char_const(s, n, rel)
-    # float32 fields read from strings: is the range checked on the number as written (F32)?
+    # float32 fields read from strings: is the range checked on the number as written (F33)?
     mm = re.search(r"func validateAndSetValue\(.*?\n}\n", s, re.S)
     if not mm:
         raise RuntimeError("validateAndSetValue no longer found in " + rel)
